@@ -60,7 +60,11 @@ Definition wf_leaf (top : bool) (t : tok) : bool :=
   match t with
   | TBadUrl _ | TBadStr _ | TCloseParen | TCloseSquare | TCloseCurly => false
   | TCDO | TCDC => top
-  | TDelim c => negb (c =? 92)
+  (* a stray backslash, and a lone `@` (one that starts no at-keyword: no selector, at-rule prelude or
+     standard property value contains it; the serializer separates it from a following `-` or
+     identifier with a space so that no at-keyword is formed, which the selector-context rule
+     "no whitespace where the source had none" would otherwise count as an inserted combinator) *)
+  | TDelim c => negb (c =? 92) && negb (c =? 64)
   | _ => true
   end.
 
